@@ -795,18 +795,21 @@ do_op(const struct op *o, int idx)
         return rc;
     }
     if (IS("pinp")) {
-        /* pinp:s:nsel:fmt:popts:vopts:doc   parse a subtree document under an existing parent */
+        /* pinp:s:nsel:fmt:popts:vopts:doc[:notree]   parse a subtree document under an existing parent; notree = 1: no output pointer */
         int s = A_slot(o, 1);
         struct lyd_node *par = sel(s, A_s(o, 2, NULL)), *first = NULL;
         long fmt = A_i(o, 3);
         uint32_t popts = (uint32_t)A_i(o, 4) & ~(uint32_t)LYD_PARSE_ORDERED, vopts = (uint32_t)A_i(o, 5);
         char *doc = A_s(o, 6, NULL);
+        int notree = (o->n > 7) && A_i(o, 7);
         struct ly_in *in = NULL;
 
         if (!doc || !is_inner(par)) return -1;
         if (ly_in_new_memory(doc, &in)) return -1;
-        rc = lyd_parse_data(ctx, par, in, fmt ? LYD_JSON : LYD_XML, popts, vopts, &first);
+        rc = lyd_parse_data(ctx, par, in, fmt ? LYD_JSON : LYD_XML, popts, vopts, notree ? NULL : &first);
         ly_in_free(in, 0);
+        OUT_CHECK(rc, first);
+        if (!rc && first && (lyd_parent(first) != par)) n_onn++;     /* documented: the first parsed child */
         slot[s] = home(par);
         return rc;
     }
